@@ -509,6 +509,28 @@ pub fn try_stmt(g: &mut Gen, out: &mut Vec<Stmt>) {
             body.insert((at + k).min(body.len()), s);
         }
     }
+    if has_finally && g.return_allowed_pub() && g.rd.chance(1, 4) {
+        // a complete inner try statement, then a return: the return still has to run this
+        // statement's finally block
+        g.label_pub("inner_try_then_return");
+        let e = g.fresh_pub("e");
+        let inner_body = match g.rd.below(3) {
+            0 => vec![Stmt::print(Expr::str("inner ok"))],
+            1 => vec![Stmt::new(StmtKind::Throw(Expr::str("inner thrown")))],
+            _ => vec![Stmt::print(Expr::bin(BinOp::Add, Expr::Nil, Expr::Num(1.0)))],
+        };
+        let inner = if g.rd.chance(2, 3) {
+            Stmt::new(StmtKind::Try(inner_body, Some((e.clone(), vec![Stmt::print(Expr::callv("type", vec![Expr::var(&e)]))])), None))
+        } else {
+            Stmt::new(StmtKind::Try(
+                vec![Stmt::print(Expr::str("inner ok"))],
+                None,
+                Some(vec![Stmt::print(Expr::str("inner finally"))]),
+            ))
+        };
+        body.push(inner);
+        body.push(Stmt::new(StmtKind::Return(Some(Expr::str("returned after inner try")))));
+    }
     g.leave();
     g.pop_scope();
     g.pop_try();
@@ -613,7 +635,7 @@ fn fiber_interplay(g: &mut Gen, out: &mut Vec<Stmt>) {
         let e = g.fresh_pub("e");
         Stmt::new(StmtKind::Try(body, Some((e.clone(), vec![Stmt::print(Expr::callv("type", vec![Expr::var(&e)]))])), None))
     };
-    match g.rd.below(5) {
+    match g.rd.below(7) {
         0 => {
             // producer / consumer: one fiber drives another, values flow both ways
             let (p, c, shared) = (g.fresh_pub("fb"), g.fresh_pub("fb"), g.fresh_pub("sh"));
@@ -702,6 +724,58 @@ fn fiber_interplay(g: &mut Gen, out: &mut Vec<Stmt>) {
                 }
             }
             out.push(Stmt::print(Expr::invoke(v(&f), "call", vec![n(41.0)])));
+        }
+        5 | 6 => {
+            // a fiber local shared with closures handed out before a yield: writes by the fiber after
+            // each resumption and writes through the closure between resumptions hit one variable
+            g.label_pub("fiber_local_shared_across_yield");
+            let glob = g.at_global_pub();
+            let (peek, bump, gen) = (
+                g.fresh_pub(if glob { "g" } else { "v" }),
+                g.fresh_pub(if glob { "g" } else { "v" }),
+                g.fresh_pub("fb"),
+            );
+            out.push(Stmt::var(&peek, None));
+            out.push(Stmt::var(&bump, None));
+            let l_peek = lam(g, vec![], vec![Stmt::new(StmtKind::Return(Some(v("total"))))]);
+            let l_bump = lam(g, vec!["q".into()], vec![Stmt::expr(Expr::assign_var("total", Expr::bin(BinOp::Add, v("total"), v("q"))))]);
+            let limit = 50.0 + g.rd.below(100) as f64;
+            let body = vec![
+                Stmt::var("total", Some(n(0.0))),
+                Stmt::expr(Expr::assign_var(&peek, l_peek)),
+                Stmt::expr(Expr::assign_var(&bump, l_bump)),
+                Stmt::new(StmtKind::While(
+                    Expr::bin(BinOp::Lt, v("total"), n(limit)),
+                    vec![
+                        Stmt::var("step", Some(yld(v("total")))),
+                        Stmt::expr(Expr::assign_var("total", Expr::bin(BinOp::Add, v("total"), v("step")))),
+                    ],
+                )),
+                Stmt::new(StmtKind::Return(Some(v("total")))),
+            ];
+            let l = lam(g, vec![], body);
+            out.push(Stmt::var(&gen, Some(fnew(l))));
+            out.push(Stmt::print(Expr::invoke(v(&gen), "call", vec![])));
+            let steps = 1 + g.rd.below(3);
+            for k in 0..steps {
+                let a = 1.0 + g.rd.below(9) as f64;
+                out.push(Stmt::print(Expr::invoke(v(&gen), "call", vec![n(a)])));
+                out.push(Stmt::print(Expr::callv(&peek, vec![])));
+                if k % 2 == 0 {
+                    out.push(Stmt::expr(Expr::callv(&bump, vec![n(20.0)])));
+                    out.push(Stmt::print(Expr::callv(&peek, vec![])));
+                }
+            }
+            if g.rd.flag() {
+                // run it to the end: the closures keep the final value
+                out.push(Stmt::print(Expr::invoke(v(&gen), "call", vec![n(500.0)])));
+                out.push(Stmt::print(Expr::invoke(v(&gen), "has_finished", vec![])));
+                out.push(Stmt::print(Expr::callv(&peek, vec![])));
+                out.push(Stmt::expr(Expr::callv(&bump, vec![n(1.0)])));
+                out.push(Stmt::print(Expr::callv(&peek, vec![])));
+            }
+            // the fiber stays referenced while its frame is open (recorded finding G3 otherwise)
+            out.push(Stmt::print(Expr::invoke(v(&gen), "has_finished", vec![])));
         }
         _ => {
             // a fiber per loop iteration, some abandoned while suspended, each with its own locals
